@@ -96,6 +96,10 @@ func (s LocalStore) StoreChunk(chunk *Chunk) error {
 // n determines the number of concurrent operations. w is used to write any messages
 // intended for the user, typically os.Stderr.
 func (s LocalStore) Verify(ctx context.Context, n int, repair bool, w io.Writer) error {
+	// Verifying means looking at the data of every chunk, even if the options of
+	// this store say that chunks read from it don't need to be checked
+	s.Opt.SkipVerify = false
+
 	var wg sync.WaitGroup
 	ids := make(chan ChunkID)
 
